@@ -6,6 +6,8 @@ import (
 	"math/rand"
 	"reflect"
 	"sort"
+
+	ysgo "github.com/remieven/ysgo"
 )
 
 // Sub-command `core`:
@@ -118,6 +120,9 @@ type behStep struct {
 	} `json:"in"`
 	Var    string          `json:"var"`
 	Val    Val             `json:"val"`
+	H      int             `json:"h"`
+	Snap   json.RawMessage `json:"snap"`
+	Ok     bool            `json:"ok"`
 	Out    json.RawMessage `json:"out"`
 	Writes json.RawMessage `json:"writes"`
 	Fcalls json.RawMessage `json:"fcalls"`
@@ -209,10 +214,57 @@ func coreReplay(m map[string]string) error {
 			return
 		}
 		waitingForChoice := false
+		type taken struct {
+			s  *ysgo.Snapshot
+			at snapContent
+		}
+		snaps := map[int]taken{}
+		// a snapshot is a self-contained value: whatever happens later, it reads the same
+		snapsUnchanged := func(si int) bool {
+			for hnd, t := range snaps {
+				if now := h.readSnap(t.s); !reflect.DeepEqual(now, t.at) {
+					exp, _ := json.Marshal(t.at)
+					diffs[bi] = &replayDiff{Case: c.ID, Beh: bi, Step: si, Field: "snapshot-changed", Exp: exp,
+						Got: map[string]any{"handle": hnd, "now": now}, Layout: l.describe(), Texts: texts}
+					return false
+				}
+			}
+			return true
+		}
 		for si, st := range b.Steps {
 			stepCounts[bi]++
 			if st.Ev == "hostset" {
 				h.hostSet(st.Var, st.Val)
+				continue
+			}
+			if st.Ev == "snap" {
+				var sn *ysgo.Snapshot
+				if !guarded(func() { sn = h.dr.Snapshot() }) || sn == nil {
+					diffs[bi] = &replayDiff{Case: c.ID, Beh: bi, Step: si, Field: "snapshot", Exp: st.Snap, Got: "panic or nil", Layout: l.describe(), Texts: texts}
+					return
+				}
+				at := h.readSnap(sn)
+				snaps[st.H] = taken{sn, at}
+				if !jsonEqual(st.Snap, at) {
+					diffs[bi] = &replayDiff{Case: c.ID, Beh: bi, Step: si, Field: "snapshot", Exp: st.Snap, Got: at, Layout: l.describe(), Texts: texts}
+					return
+				}
+				continue
+			}
+			if st.Ev == "restore" {
+				var rerr error
+				panicked := !guarded(func() { rerr = h.dr.RestoreAt(snaps[st.H].s) })
+				ok := rerr == nil && !panicked
+				if ok != st.Ok {
+					exp, _ := json.Marshal(st.Ok)
+					diffs[bi] = &replayDiff{Case: c.ID, Beh: bi, Step: si, Field: "restore-result", Exp: exp, Got: ok, Layout: l.describe(), Texts: texts}
+					return
+				}
+				h.pending = nil
+				waitingForChoice = false
+				if !snapsUnchanged(si) {
+					return
+				}
 				continue
 			}
 			if st.In.Done {
@@ -244,6 +296,9 @@ func coreReplay(m map[string]string) error {
 			if field != "" {
 				diffs[bi] = &replayDiff{Case: c.ID, Beh: bi, Step: si, Field: field, Exp: exp, Got: got, Panic: obs.Panic,
 					Layout: l.describe(), Texts: texts}
+				return
+			}
+			if !snapsUnchanged(si) {
 				return
 			}
 		}
